@@ -116,6 +116,8 @@ grafts = list(G)
 shapes = [(6,), (4, 5), (3, 2, 4)]
 n_cfg = 40 if tier == "quick" else 300
 for ci in range(n_cfg):
+  if ci % 8 == 0:
+    jax.clear_caches()
   shape = shapes[ci % len(shapes)]
   sched = bool(rng.randint(2))
   base_lr = float(rng.choice([0.1, 0.5]))
